@@ -225,3 +225,59 @@ def returned_segments(crate, f, conds_of_factory):
         s = parse_stream(crate, base[2][0])
         return (s, []) if s is not None else ([], ["the returned collect() is over an iterator that is not understood"])
     return vector_segments(crate, f, ls, lambda b: b == base, conds_of_factory(ls))
+
+
+def parse_first(crate, t):
+    """first-match normal form of an Option-valued (or unwrapped) term:
+         stream.find(p) [.map(f)] [.copied()] [.unwrap()/.expect()/.unwrap_or_else(diverging)] / (.. as Some).0
+       -> {"count", "cond"(ix), "result"(ix), "unwrapped": bool}: the result for the smallest ix < count with cond(ix).
+       None when the term is not of that form."""
+    if t[0] in ("ref",):
+        return None
+    if t[0] == "field" and t[2] == 0 and t[1][0] == "variant" and t[1][2] == "Some":
+        r = parse_first(crate, t[1][1])
+        if r is not None:
+            r["unwrapped"] = True
+        return r
+    if t[0] == "field" or t[0] in ("deref", "deref*"):
+        # a projection of the unwrapped match
+        r = parse_first(crate, t[1])
+        if r is None or not r.get("unwrapped"):
+            return None
+        r["result"] = ("field", r["result"], t[2]) if t[0] == "field" else ("deref", r["result"])
+        return r
+    if t[0] != "call" or not isinstance(t[1], str):
+        return None
+    name, a = t[1], t[2]
+    short = name.split("::")[-1]
+    if "Option" in name and short in ("unwrap", "expect", "unwrap_or_else", "unwrap_unchecked") and a:
+        r = parse_first(crate, a[0])
+        if r is not None:
+            r["unwrapped"] = True
+            if short == "unwrap_or_else":
+                r["or_else"] = a[1]
+        return r
+    if "Option" in name and short == "map" and len(a) == 2:
+        r = parse_first(crate, a[0])
+        if r is None:
+            return None
+        v = apply_closure(crate, a[1], r["result"])
+        if v is None:
+            return None
+        r["result"] = v
+        return r
+    if "Option" in name and short in ("copied", "cloned") and len(a) == 1:
+        r = parse_first(crate, a[0])
+        if r is not None:
+            r["result"] = ("deref", r["result"])
+        return r
+    if name.endswith("Iterator::find") and len(a) == 2:
+        s = parse_stream(crate, a[0])
+        if s is None or len(s) != 1:
+            return None
+        c = apply_closure(crate, a[1], s[0]["value"], arg_by_ref=True)
+        if c is None:
+            return None
+        cond = c if s[0]["cond"] is None else ("op", "BitAnd", s[0]["cond"], c)
+        return {"count": s[0]["count"], "cond": cond, "result": s[0]["value"], "unwrapped": False}
+    return None
